@@ -231,6 +231,8 @@ def _walk_no_nested(fn):
     stack = list(fn.body)
     while stack:
         n = stack.pop()
+        if isinstance(n, (ast.FunctionDef, ast.AsyncFunctionDef, ast.Lambda, ast.ClassDef)):
+            continue
         yield n
         for c in ast.iter_child_nodes(n):
             if isinstance(c, (ast.FunctionDef, ast.AsyncFunctionDef, ast.Lambda, ast.ClassDef)):
@@ -1072,8 +1074,10 @@ class Interp:
         assigned = _assigned_names(body) | _target_names(target)
         carried = _loop_carried(body, target)
         if carried:
-            self.loop_depth -= 1
-            raise Unsupported(f"loop-carried variables {sorted(carried)} need an invariant")
+            try:
+                return self.fold_loop(spec, target, body, frame, sorted(carried), idx)
+            finally:
+                self.loop_depth -= 1
 
         def thunk(fr):
             self.assume(spec.bound(idx))
@@ -1110,6 +1114,73 @@ class Interp:
         else:
             self.trace.append(("loop", spec, idx, alts))
         for n in assigned:
+            frame.vars[n] = Poison(n)
+
+    def fold_loop(self, spec, target, body, frame, carried, idx):
+        """fold rule (DESIGN 2.3 rule 3, lemma `fold_inv`): a loop whose only loop-carried state is the
+        variables `carried`, each updated by a branch-free function of (carried, element), is the fold
+        of that function over the domain.  The fold is an uninterpreted function named by the
+        structural text of the step, so two loops with the same step over equal domains from equal
+        initial values are equal; nothing else is known about it except `fold(step, [], init) = init`."""
+        from . import lib
+        import hashlib
+
+        if spec.key[0] != "seq":
+            raise Unsupported("fold over a non-sequence domain")
+        inits = []
+        kinds = []
+        for n in carried:
+            v = frame.lookup(n)
+            sq = None
+            if isinstance(v, (GenVal, LazyGen, list)) or lib.as_iterator(self, v) is not None:
+                sq = lib.seq_of(self, v)
+            elif S.is_term(v) and lib._known(self, z3.Or(Py.is_list(v), Py.is_tuple(v))):
+                sq = z3.simplify(S.seq_items(v))  # an iterable that is only iterated: its item sequence
+            if sq is not None:
+                inits.append(sq)
+                kinds.append("seq")
+            else:
+                inits.append(self.to_term(v))
+                kinds.append("term")
+        accs = [z3.Const(f"acc!{self.loop_depth}!{k}", S.SeqPy if kinds[k] == "seq" else Py) for k in range(len(carried))]
+
+        def thunk(fr):
+            self.assume(spec.bound(idx))
+            self.index_terms.append(idx)
+            self.sub_pc_start = len(self.pc)
+            for n, a, kd in zip(carried, accs, kinds):
+                fr.vars[n] = GenVal([("yieldfrom", a)]) if kd == "seq" else a
+            self.assign(target, spec.elem(idx), fr)
+            ctrl = self.exec_block(body, fr)
+            if ctrl is not None and ctrl[0] != "continue":
+                raise Unsupported("early exit from a fold loop")
+            outs = []
+            for n, kd in zip(carried, kinds):
+                v = fr.vars[n]
+                if kd == "seq":
+                    sq = lib.seq_of(self, v)
+                    if sq is None:
+                        raise Unsupported("fold step result is not a sequence")
+                    outs.append(sq)
+                else:
+                    outs.append(self.to_term(v))
+            self._fold_out = outs
+            return None
+
+        alts = self.explore_sub(frame, thunk)
+        if len(alts) != 1 or alts[0]["pc"] or alts[0]["exit"][0] != "next" or alts[0]["trace"]:
+            raise Unsupported("fold step must be a single branch-free, effect-free path")
+        outs = self._fold_out
+        txt = "|".join(z3.simplify(o).sexpr() for o in outs) + "@" + ",".join(kinds)
+        h = hashlib.sha1(txt.encode()).hexdigest()[:10]
+        self.assumed.append(f"rule:fold(loop step {h})")
+        for k, (n, kd) in enumerate(zip(carried, kinds)):
+            sorts = [S.SeqPy] + [i.sort() for i in inits]
+            f = z3.Function(f"loopfold!{h}!{k}", *sorts, S.SeqPy if kd == "seq" else Py)
+            val = f(spec.key[1], *inits)
+            self.assume(z3.Implies(z3.Length(spec.key[1]) == 0, val == inits[k]))
+            frame.vars[n] = GenVal([("yieldfrom", val)]) if kd == "seq" else val
+        for n in (_assigned_names(body) | _target_names(target)) - set(carried):
             frame.vars[n] = Poison(n)
 
     # ---- expressions
